@@ -399,6 +399,112 @@ class C17(PropBase):
             cases.append("B %s" % hx(bsuf))
         return list(dict.fromkeys(cases))
 
+    # ------------------------------------------------------------------ Url::join on RAW references (all branches of the dispatch)
+    def join_cases(self, seed, tier="quick"):
+        """`J <base scheme> <base path> <reference>`: the real Url::join against C17/UrlFull.v url_resolve — scheme detection (case,
+        TAB/LF inside, invalid characters), the base's own scheme with fewer than two slashes (relative), other special schemes, file,
+        non-special schemes, authority (any mix of two or more slashes / backslashes, userinfo, port), absolute and relative paths,
+        query / fragment, dot segments, leading / trailing controls."""
+        rng = Rng(seed + 4242)
+        schemes = ["http", "https", "HTTP", "hTtPs", "ws", "wss", "ftp", "file", "FILE", "ab", "a+b", "a-.1", "h\ttp", "ht\ntps", "1a", "a b",
+                   "", "httpx", "x-http", "http:http", "javascript", "data", "mailto"]
+        slashes = ["", "/", "//", "///", "\\", "\\\\", "/\\", "\\/", "/\t/", "\t//", "////"]
+        rests = ["", "x", "e/x", "e", "e@f/x", "u:p@e/x", "e:81/x", "e:80/x", "../x", "..", "?q", "#f", "x/../y", "e\\x", "e?x/y", "e#x",
+                 "@e/x", "e.f/x/./y/%2e%2e/z", "h.test/x", "E.F/x", "e /x", "e\tf/x", "[::1]/x", "1.2.3.4/x", "e:/x", ":81/x", "%65/x"]
+        bases = [("http", "/"), ("http", "/r/"), ("https", "/r/"), ("http", "/a/b"), ("ws", "/a/b/c/"), ("ftp", "/r/i"), ("https", "/")]
+        pads = ["", " ", "\t", "\n", "\x00", "\x1f ", "\u00a0"]
+        refs = []
+        for sc in schemes:
+            for sl in slashes:
+                for r in rests:
+                    refs.append((sc + ":" if sc else "") + sl + r)
+        for r in list(refs[::7]):
+            refs.append(rng.choice(pads) + r + rng.choice(pads))
+        atoms = ["h", "t", "p", "s", ":", "/", "/", "\\", "?", "#", ".", "..", "%2e", "%2E", "@", "\t", " ", "\n", "a", "e", "file", "http", "https",
+                 "ws", "+", "-", "1", "[", "]", "\u00e9", "%", "x"]
+        n_rand = 1500 if tier == "quick" else 20000
+        for _ in range(n_rand):
+            refs.append("".join(rng.choice(atoms) for _ in range(rng.range(1, 9))))
+        cases = []
+        for i, r in enumerate(dict.fromkeys(refs)):
+            picks = bases if (tier != "quick" or i % 11 == 0) else [bases[i % len(bases)], bases[(i * 5 + 3) % len(bases)]]
+            for sch, bp in dict.fromkeys(picks):
+                cases.append("J %s %s %s" % (hx(sch), hx(bp), hx(r)))
+        return cases
+
+    SIMPLE_HOST = None
+
+    def join_probe(self, ctx):
+        import re
+        if ctx.get("replay"):
+            cases = [c for c in ctx["cases"] if c and c.startswith("J ")]
+        else:
+            cases = self.join_cases(ctx["seed"], ctx.get("tier", "quick"))
+        if not cases:
+            return []
+        out = []
+        try:
+            model_exe = vlib.ocaml_build(self.pid)
+            mans, mdead = vlib.run_lines([model_exe, "--join"], cases, timeout=300, mem_gb=8)
+            if mdead:
+                raise vlib.CheckFailure("c17 join model died at case %s" % cases[mdead[0][0]][:200])
+        except vlib.CheckFailure as e:
+            ctx["info"]["url_join_model"] = "unavailable: %s" % str(e)[-200:]
+            return []
+        simple = re.compile(r"^[a-z][a-z0-9-]*(\.[a-z][a-z0-9-]*)*$")
+        kinds = {"S": 0, "A": 0, "O": 0}
+        n_cmp = 0
+        for prof in self.profiles:
+            exe = ctx["exes"][("c17", prof)]
+            ans, dead = vlib.run_lines([exe, "--url-join"], cases, timeout=300, mem_gb=8, shards=4)
+            for idx, why in dead:
+                out.append({"case": cases[idx], "profile": prof, "found_input": False,
+                            "what": "url join correspondence: implementation child died or hung on this case (%s)" % why})
+            for c, a, m in zip(cases, ans, mans):
+                if a is None or m is None:
+                    continue
+                _, sch, bp, ref = c.split()
+                sch, bp, ref = unhx(sch).decode(), unhx(bp).decode(), unhx(ref).decode("utf-8", "replace")
+                mp = m.split("|")
+                ip = a.split("|")
+                n_cmp += 1
+                kinds[mp[0]] = kinds.get(mp[0], 0) + 1
+                bad = None
+                dec = lambda t: unhx(t).decode("utf-8", "replace")
+                if ip[0] == "OK":
+                    isch, iuser, ihost, iport, ipath, ibase = dec(ip[1]), dec(ip[2]), dec(ip[3]), ip[4], dec(ip[5]), dec(ip[6])
+                    if ibase != bp:
+                        bad = "the base path parsed as %r, the generator meant %r" % (ibase, bp)
+                if bad:
+                    pass
+                elif mp[0] == "S":
+                    want = dec(mp[1])
+                    if ip[0] != "OK":
+                        bad = "the model keeps scheme and authority with path %r, Url::join answered %s" % (want, a[:80])
+                    elif (isch, iuser, ihost, iport, ipath) != (sch, "", "h.test", "-", want):
+                        bad = "the model keeps scheme and authority with path %r, Url::join gave %s://%s@%s:%s%s" % (want, isch, iuser, ihost, iport, ipath)
+                elif mp[0] == "A":
+                    wsch, auth = dec(mp[1]), dec(mp[2])
+                    if ip[0] == "OK":
+                        if isch != wsch:
+                            bad = "the model selects scheme %r with authority %r, Url::join gave scheme %r" % (wsch, auth, isch)
+                        elif simple.match(auth) and (ihost, iuser, iport) != (auth, "", "-"):
+                            bad = "the model selects authority %r, Url::join gave %s@%s:%s" % (auth, iuser, ihost, iport)
+                    elif simple.match(auth) and not auth.startswith("xn--"):
+                        bad = "the model selects authority %r, Url::join answered %s" % (auth, a[:80])
+                elif mp[0] == "O":
+                    wsch = dec(mp[1])
+                    if ip[0] == "OK" and isch != wsch:
+                        bad = "the model selects the scheme %r, Url::join gave %r" % (wsch, isch)
+                else:
+                    bad = "unparseable model answer %r" % m[:80]
+                if bad:
+                    out.append({"case": c, "profile": prof, "found_input": False,
+                                "what": "url join correspondence (reference %r on %s://h.test%s): %s" % (ref, sch, bp, bad)})
+        ctx["info"]["url_join_cases_compared"] = n_cmp
+        ctx["info"]["url_join_model_kinds"] = kinds
+        return out
+
     # ------------------------------------------------------------------ end-to-end FILESYSTEM probe (consumers)
     ESC_NAMES = ["../outside/secret.bin", "../../outside/secret.bin", "../x", "../../x", "../../../x", "a/../../x", "a/../../../outside/secret.bin",
                  "./../x", "..//x", "../outside/secret.bin.pdb", "../x.pdb", "../x.sym", "../../x.dll", "@T@/outside/abs.pdb", "@T@/x", "@T@/root/x",
@@ -426,7 +532,7 @@ class C17(PropBase):
         return list(dict.fromkeys(cases))
 
     def fs_probe(self, ctx):
-        cases = self.fs_cases(ctx["seed"]) if not ctx.get("replay") else [c for c in ctx["cases"] if c and not c.startswith("B ")]
+        cases = self.fs_cases(ctx["seed"]) if not ctx.get("replay") else [c for c in ctx["cases"] if c and not c.startswith(("B ", "J "))]
         out = []
         stats = {"returned": 0, "created": 0}
         n_cmp = [0]
@@ -504,7 +610,7 @@ class C17(PropBase):
         every request.  (1) oracle: every request arrives below the base URL's path, and a lookup path always produces a
         request; (2) correspondence: the Coq model (join_rel + the modelled part of Url::join) predicts every request path."""
         if ctx.get("replay"):
-            cases = [c for c in ctx["cases"] if c]
+            cases = [c for c in ctx["cases"] if c and not c.startswith("J ")]
         else:
             cases = self.url_cases(ctx["seed"])
         out = []
@@ -564,6 +670,7 @@ class C17(PropBase):
         ctx["info"]["url_probe_cases"] = len(cases) * len(self.profiles)
         ctx["info"]["url_probe_requests_observed"] = n_req
         ctx["info"]["url_probe_predictions_compared"] = n_cmp
+        out += self.join_probe(ctx)
         out += self.fs_probe(ctx)
         # failing inputs first (the runner prints the first few violations)
         return sorted(out, key=lambda v: 0 if v.get("found_input") else 1)
